@@ -6,7 +6,7 @@
 From Coq Require Import NArith ZArith Bool List.
 From CppUVerif Require Import lib.CMem lib.CMemFacts gen.Gen_LoopC13.   (* before the model: its Ok/Oob/NoFuel are the unqualified ones below *)
 From CppUVerif Require Import lib.Str lib.CSem gen.Gen_LeafC13 C13_Text C13_Model C13_Proofs C13_Replace C13_Printable C13_Concat C13_Alloc C13_Atoi C13_Main C13_LeafTie.
-From CppUVerif Require Import C13_SrcTie C13_SrcTie2 C13_SrcTie3 C13_SrcTie4 C13_SrcSpec.
+From CppUVerif Require Import C13_SrcTie C13_SrcTie2 C13_SrcTie3 C13_SrcTie4 C13_SrcSpec C13_SrcSpec2 C13_SrcSpec3 C13_SrcSpec4.
 Import ListNotations.
 Local Open Scope N_scope.
 
@@ -324,3 +324,199 @@ Theorem C13_src_AtoI_spec : forall fuel m b o s r, mem_ok m -> view m (Ptr b o) 
   (length (s ++ 0%N :: r) < fuel)%nat -> src_AtoI fuel m (Ptr b o) = FOk (t_atoi s).
 Proof. exact src_AtoI_spec. Qed.
 Print Assumptions C13_src_AtoI_spec.
+
+(* ------------------------------------------------------------------------------------------------------------------
+   ... and the SimpleString methods built on the primitives, translated from the same file with the object's buffer_ as the
+   pointer argument (this first, then the SimpleString argument): textbook meaning, memory safety, termination.
+   ------------------------------------------------------------------------------------------------------------------ *)
+Theorem C13_src_size_spec :
+  forall (fuel : nat) (m : memory) (b : nat) (o : Z) (s r : list N),
+  mem_ok m ->
+  cstr_at m (Ptr b o) s r ->
+  (length (s ++ 0%N :: r) < fuel)%nat ->
+  Z.of_nat (length (s ++ 0%N :: r)) < M64 -> src_size fuel m (Ptr b o) = FOk (Z.of_nat (length s)).
+Proof. exact C13_SrcSpec2.src_size_spec. Qed.
+Print Assumptions C13_src_size_spec.
+
+Theorem C13_src_isEmpty_spec :
+  forall (fuel : nat) (m : memory) (b : nat) (o : Z) (s r : list N),
+  mem_ok m ->
+  cstr_at m (Ptr b o) s r ->
+  (length (s ++ 0%N :: r) < fuel)%nat ->
+  Z.of_nat (length (s ++ 0%N :: r)) < M64 -> src_isEmpty fuel m (Ptr b o) = FOk (b2z (length s =? 0)%nat).
+Proof. exact src_isEmpty_spec. Qed.
+Print Assumptions C13_src_isEmpty_spec.
+
+Theorem C13_src_at_spec :
+  forall (fuel : nat) (m : memory) (b : nat) (o pos : Z) (l : list N),
+  mem_ok m ->
+  view m (Ptr b o) = l ->
+  (Z.to_nat pos < length l)%nat ->
+  0 <= pos -> src_at fuel m (Ptr b o) pos = FOk (schar (nth (Z.to_nat pos) l 0%N)).
+Proof. exact src_at_spec. Qed.
+Print Assumptions C13_src_at_spec.
+
+Theorem C13_src_at_oob :
+  forall (fuel : nat) (m : memory) (b : nat) (o pos : Z) (l : list N),
+  mem_ok m ->
+  view m (Ptr b o) = l ->
+  0 <= o -> (length l <= Z.to_nat pos)%nat /\ 0 <= pos \/ o + pos < 0 -> src_at fuel m (Ptr b o) pos = FOob.
+Proof. exact src_at_oob. Qed.
+Print Assumptions C13_src_at_oob.
+
+Theorem C13_src_contains_spec :
+  forall (fuel : nat) (m : memory) (b1 : nat) (o1 : Z) (b2 : nat) (o2 : Z) (a ra c rc : list N),
+  mem_ok m ->
+  cstr_at m (Ptr b1 o1) a ra ->
+  cstr_at m (Ptr b2 o2) c rc ->
+  (length (a ++ 0%N :: ra) < fuel)%nat ->
+  (length (c ++ 0%N :: rc) < fuel)%nat ->
+  Z.of_nat (length (c ++ 0%N :: rc)) < M64 ->
+  src_contains fuel m (Ptr b1 o1) (Ptr b2 o2) = FOk (b2z (contains a c)).
+Proof. exact src_contains_spec. Qed.
+Print Assumptions C13_src_contains_spec.
+
+Theorem C13_src_startsWith_spec :
+  forall (fuel : nat) (m : memory) (b1 : nat) (o1 : Z) (b2 : nat) (o2 : Z) (a ra c rc : list N),
+  mem_ok m ->
+  cstr_at m (Ptr b1 o1) a ra ->
+  cstr_at m (Ptr b2 o2) c rc ->
+  (length (a ++ 0%N :: ra) < fuel)%nat ->
+  (length (c ++ 0%N :: rc) < fuel)%nat ->
+  Z.of_nat (length (a ++ 0%N :: ra)) < M64 ->
+  Z.of_nat (length (c ++ 0%N :: rc)) < M64 ->
+  src_startsWith fuel m (Ptr b1 o1) (Ptr b2 o2) = FOk (b2z (is_prefix c a)).
+Proof. exact src_startsWith_spec. Qed.
+Print Assumptions C13_src_startsWith_spec.
+
+Theorem C13_src_endsWith_spec :
+  forall (fuel : nat) (m : memory) (b1 : nat) (o1 : Z) (b2 : nat) (o2 : Z) (a ra c rc : list N),
+  mem_ok m ->
+  cstr_at m (Ptr b1 o1) a ra ->
+  cstr_at m (Ptr b2 o2) c rc ->
+  (length (a ++ 0%N :: ra) < fuel)%nat ->
+  (length (c ++ 0%N :: rc) < fuel)%nat ->
+  Z.of_nat (length (a ++ 0%N :: ra)) < M64 ->
+  Z.of_nat (length (c ++ 0%N :: rc)) < M64 ->
+  src_endsWith fuel m (Ptr b1 o1) (Ptr b2 o2) = FOk (b2z (t_ends_with a c)).
+Proof. exact src_endsWith_spec. Qed.
+Print Assumptions C13_src_endsWith_spec.
+
+Theorem C13_src_equal_spec :
+  forall (fuel : nat) (m : memory) (b1 : nat) (o1 : Z) (b2 : nat) (o2 : Z) (a ra c rc : list N),
+  mem_ok m ->
+  cstr_at m (Ptr b1 o1) a ra ->
+  cstr_at m (Ptr b2 o2) c rc ->
+  (length (a ++ 0%N :: ra) < fuel)%nat -> src_equal fuel m (Ptr b1 o1) (Ptr b2 o2) = FOk (b2z (bytes_eqb a c)).
+Proof. exact src_equal_spec. Qed.
+Print Assumptions C13_src_equal_spec.
+
+Theorem C13_src_count_spec :
+  forall (fuel : nat) (m : memory) (b1 : nat) (o1 : Z) (b2 : nat) (o2 : Z) (a ra c rc : list N),
+  mem_ok m ->
+  cstr_at m (Ptr b1 o1) a ra ->
+  cstr_at m (Ptr b2 o2) c rc ->
+  (length (a ++ 0%N :: ra) < fuel)%nat ->
+  (length (c ++ 0%N :: rc) < fuel)%nat ->
+  Z.of_nat (length (a ++ 0%N :: ra)) < M64 ->
+  Z.of_nat (length (c ++ 0%N :: rc)) < M64 ->
+  src_count fuel m (Ptr b1 o1) (Ptr b2 o2) = FOk (Z.of_nat (t_count a c)).
+Proof. exact src_count_spec. Qed.
+Print Assumptions C13_src_count_spec.
+
+Theorem C13_src_findFrom_spec :
+  forall (fuel : nat) (m : memory) (b : nat) (o : Z) (a r : list N) (start : Z) (ch : N),
+  mem_ok m ->
+  cstr_at m (Ptr b o) a r ->
+  (length (a ++ 0%N :: r) < fuel)%nat ->
+  Z.of_nat (length (a ++ 0%N :: r)) < M64 ->
+  0 <= start < M64 ->
+  0 <= o ->
+  (ch < 256)%N ->
+  src_findFrom fuel m (Ptr b o) start (schar ch) =
+  FOk match t_find_from a (Z.to_N start) ch with
+  | Some i => Z.of_N i
+  | None => 18446744073709551615
+  end.
+Proof. exact src_findFrom_spec. Qed.
+Print Assumptions C13_src_findFrom_spec.
+
+Theorem C13_src_find_spec :
+  forall (fuel : nat) (m : memory) (b : nat) (o : Z) (a r : list N) (ch : N),
+  mem_ok m ->
+  cstr_at m (Ptr b o) a r ->
+  (length (a ++ 0%N :: r) < fuel)%nat ->
+  Z.of_nat (length (a ++ 0%N :: r)) < M64 ->
+  0 <= o ->
+  (ch < 256)%N ->
+  src_find fuel m (Ptr b o) (schar ch) =
+  FOk match t_find_from a 0 ch with
+  | Some i => Z.of_N i
+  | None => 18446744073709551615
+  end.
+Proof. exact src_find_spec. Qed.
+Print Assumptions C13_src_find_spec.
+
+Theorem C13_src_replaceChar_spec :
+  forall (fuel : nat) (m : memory) (b : nat) (o : Z) (pre s r : list N) (c1 c2 : N),
+  mem_ok m ->
+  (b < length m)%nat ->
+  0 <= o ->
+  block m b = pre ++ s ++ 0%N :: r ->
+  length pre = Z.to_nat o ->
+  NN s ->
+  (c1 < 256)%N ->
+  (c2 < 256)%N ->
+  (length (s ++ 0%N :: r) < fuel)%nat ->
+  Z.of_nat (length (s ++ 0%N :: r)) < M64 ->
+  src_replaceChar fuel m (Ptr b o) (schar c1) (schar c2) =
+  FOk (tt, upd m b (pre ++ t_repl_char c1 c2 s ++ 0%N :: r)).
+Proof. exact src_replaceChar_spec. Qed.
+Print Assumptions C13_src_replaceChar_spec.
+
+Theorem C13_src_getPrintableSize_spec :
+  forall (fuel : nat) (m : memory) (b : nat) (o : Z) (s r : list N),
+  mem_ok m ->
+  cstr_at m (Ptr b o) s r ->
+  0 <= o ->
+  (length (s ++ 0%N :: r) < fuel)%nat ->
+  Z.of_nat (length (s ++ 0%N :: r)) < M64 ->
+  Z.of_nat (4 * length s) < M64 ->
+  src_getPrintableSize fuel m (Ptr b o) = FOk (Z.of_nat (length (t_printable s))).
+Proof. exact src_getPrintableSize_spec. Qed.
+Print Assumptions C13_src_getPrintableSize_spec.
+
+Theorem C13_src_copyToBuffer_spec :
+  forall (fuel : nat) (m : memory) (b : nat) (o : Z) (bd : nat) (s r dst : list N) (dn : nat),
+  mem_ok m ->
+  bd <> b ->
+  (bd < length m)%nat ->
+  cstr_at m (Ptr b o) s r ->
+  0 <= o ->
+  block m bd = dst ->
+  length dst = dn ->
+  (1 <= dn)%nat ->
+  Z.of_nat dn < M64 ->
+  (length (s ++ 0%N :: r) < fuel)%nat ->
+  Z.of_nat (length (s ++ 0%N :: r)) < M64 ->
+  src_copyToBuffer fuel m (Ptr b o) (Ptr bd 0) (Z.of_nat dn) =
+  FOk
+  (tt, upd m bd (firstn (Nat.min (dn - 1) (length s)) s ++ 0%N :: skipn (S (Nat.min (dn - 1) (length s))) dst)).
+Proof. exact src_copyToBuffer_spec. Qed.
+Print Assumptions C13_src_copyToBuffer_spec.
+
+Theorem C13_src_copyToBuffer_fresh :
+  forall (fuel : nat) (m : memory) (b : nat) (o : Z) (bd : nat) (s r : list N) (dn : nat),
+  mem_ok m ->
+  bd <> b ->
+  (bd < length m)%nat ->
+  cstr_at m (Ptr b o) s r ->
+  0 <= o ->
+  block m bd = fresh dn ->
+  (1 <= dn)%nat ->
+  Z.of_nat dn < M64 ->
+  (length (s ++ 0%N :: r) < fuel)%nat ->
+  Z.of_nat (length (s ++ 0%N :: r)) < M64 ->
+  src_copyToBuffer fuel m (Ptr b o) (Ptr bd 0) (Z.of_nat dn) = FOk (tt, upd m bd (t_copy_out s dn)).
+Proof. exact src_copyToBuffer_fresh. Qed.
+Print Assumptions C13_src_copyToBuffer_fresh.
